@@ -344,13 +344,17 @@ func StatementProcessor(gs *gripql.GraphStatement, db gdbi.GraphInterface, ps *p
 			return nil, fmt.Errorf(`"aggregate" statement is only valid for edge or vertex types not: %s`, ps.LastType.String())
 		}
 		aggs := make(map[string]interface{})
-		for _, a := range stmt.Aggregate.Aggregations {
+		for _, a := range stmt.Aggregate.GetAggregations() {
 			if _, ok := aggs[a.Name]; ok {
 				return nil, fmt.Errorf("duplicate aggregation name '%s' found; all aggregations must have a unique name", a.Name)
 			}
+			if a.Aggregation == nil {
+				return nil, fmt.Errorf("aggregation '%s' has no aggregation type", a.Name)
+			}
+			aggs[a.Name] = a
 		}
 		ps.LastType = gdbi.AggregationData
-		return &aggregate{stmt.Aggregate.Aggregations}, nil
+		return &aggregate{stmt.Aggregate.GetAggregations()}, nil
 
 	//Custom graph statements
 	case *gripql.GraphStatement_LookupVertsIndex:
